@@ -159,6 +159,19 @@ CLAIMS["C05"] = dict(
     technique="hook-recorded serialisation sets vs enumerator sets and graph-model predictions, judged by TLC (trace validation) for all types x versions x modes",
     design="DESIGN.md §3.2, §4 C05")
 
+CLAIMS["C16"] = dict(
+    category="fault_enumeration",
+    text=("NifTrunc.tla defines the crash points Truncate(file, k): every byte offset for files up to 16 KiB, and for larger ones the field "
+          "boundaries (-1..+2) taken from the recorded field tape of the loader plus a stride; inputs are the 26 samples and synthesised "
+          "normal-form files of the registered block types. TLC enumerates the points; the harness loads each prefix, runs the full query "
+          "battery, copies, saves (default and raw) and destroys the model in forked children with a watchdog (all points uninstrumented, a "
+          "seeded share under ASan+UBSan); TLC validates the recorded loader contract (documented return code, cleared model after failure, "
+          "header block count after success, saving returns) and accepts no Crash/Timeout record."),
+    note=("The decisive observation for memory/arithmetic faults is the sanitizer / the signal, not TLC (DESIGN.md §8). Quick tier takes a seeded "
+          "1/9 of the points; files above 100 kB are not run under ASan."),
+    technique="TLC-enumerated truncation points from recorded field tapes, forked execution under sanitizers + watchdog, TLC validation of the loader contract",
+    design="DESIGN.md §4 C16")
+
 NOT_YET = {}
 
 
